@@ -37,6 +37,11 @@ var propConfigs = map[string]*propConfig{
 		"float16/float32, fixed point, FloPoCo and linear-quantiser import/export go through strconv.ParseFloat and float scaling: floating point is outside this family; only the integer notations (unsigned, signed, bin, hex) are under functional contract",
 		"the regular languages are those of Go's regexp/syntax parse of the pattern strings found in the importMatchers methods; runes above U+2FFFF are clipped (SMT-LIB string alphabet)",
 	}},
+	"C09": {pkgs: []string{"./pkg/procbuilder"}, notes: []string{
+		"decided: every Opcode.Simulate (all opcode types except the nine emulator opcodes, which send on the VM's command channel) writes only cells of the VM it is given and reads only that VM and its machine description; run-time panics and callee preconditions are assumed not to occur (frameonly contracts)",
+		"not decided: the goroutine scheduler, the per-tick channel barrier of bondmachine.VM.Step, GOMAXPROCS, the race detector, and simbox.DelayDistribution (draws from the process-wide math/rand source by design)",
+		"bit-reinterpretation helpers (Int8bits..., unsafe.Pointer casts) and the fixed-point arithmetic helpers are trusted to be functions of their arguments",
+	}},
 	"C10": {pkgs: []string{"./pkg/bondmachine"}, notes: []string{
 		"Attach_benchmark_core / AttachBenchmarkCoreV2 are compositions of the verified edits with assembler calls; their bodies are not under contract here",
 		"negative indices (Del_input(-1), Del_bond(-1)) panic before any mutation; 0 <= id is a precondition",
@@ -65,6 +70,7 @@ type checkRun struct {
 	bounded   []string
 	excluded  []string
 	matchers  []matcherInfo
+	knownObls map[string]bool
 	start     time.Time
 }
 
@@ -359,6 +365,12 @@ func (c *checkRun) report(cfg *propConfig) {
 		fmt.Printf("VIOLATION property=%s replay=%s%s\n", c.prop, path, suffix)
 		fmt.Printf("  obligation %s: %s\n", b, v.reason)
 	}
+	c.knownObls = map[string]bool{}
+	for _, o := range c.obls {
+		if !o.ok() && isKnown(o.Name) != nil {
+			c.knownObls[o.Name] = true
+		}
+	}
 	c.writeEvidence(cfg, nviol, nil)
 	total, ok := 0, 0
 	for _, o := range c.obls {
@@ -388,11 +400,16 @@ func (c *checkRun) writeEvidence(cfg *propConfig, nviol int, extraAssumptions []
 	secs := 0.0
 	var samples []map[string]interface{}
 	probeRes := map[string]int{}
+	var knownFailing []string
 	for _, o := range c.obls {
 		if o.ExpectSat {
 			probes++
 			probeRes[o.Result]++
 			continue
+		}
+		if c.knownObls[o.Name] {
+			knownFailing = append(knownFailing, o.Name)
+			continue // a listed known finding: reported separately, not part of the proved set
 		}
 		total++
 		byKind[o.Kind]++
@@ -461,6 +478,8 @@ func (c *checkRun) writeEvidence(cfg *propConfig, nviol int, extraAssumptions []
 		"vacuity_probes":           probes,
 		"vacuity_probe_results":    probeRes,
 		"inventory_missing":        c.missing,
+		"known_finding_obligations": knownFailing,
+		"excluded_by_name":         c.excluded,
 		"bounded_items":            c.bounded,
 		"samples":                  samples,
 		"exhaustive":               false,
